@@ -89,6 +89,13 @@ theorem Four_is_valid (a b c d : Nat) : Src.Four.is_valid [a, b, c, d] = some (i
 theorem Two_new (a b : Nat) : Src.Two.new a b = some [a, b] := rfl
 theorem Five_new (a b c d e : Nat) : Src.Five.new a b c d e = some [a, b, c, d, e] := rfl
 
+theorem Two_iter (ws : List Nat) : Src.Two.iter ws = some ws := rfl
+theorem Three_iter (ws : List Nat) : Src.Three.iter ws = some ws := rfl
+theorem Four_iter (ws : List Nat) : Src.Four.iter ws = some ws := rfl
+theorem Five_iter (ws : List Nat) : Src.Five.iter ws = some ws := rfl
+theorem Six_iter (ws : List Nat) : Src.Six.iter ws = some ws := rfl
+theorem Seven_iter (ws : List Nat) : Src.Seven.iter ws = some ws := rfl
+
 end Tie
 
 /-! ## axiom audit (written by tools/tie.py --audit) -/
@@ -163,3 +170,9 @@ end Tie
 #print axioms Tie.Four_is_valid
 #print axioms Tie.Two_new
 #print axioms Tie.Five_new
+#print axioms Tie.Two_iter
+#print axioms Tie.Three_iter
+#print axioms Tie.Four_iter
+#print axioms Tie.Five_iter
+#print axioms Tie.Six_iter
+#print axioms Tie.Seven_iter
